@@ -1,7 +1,594 @@
 import Spec.Reverse
+/-!
+# C09 — the generated downgrade undoes the generated upgrade
+
+Theorems about `Model.Reverse.Op.reverse` / `reverseInto` (mirror of `reverse()` of every
+reversible op class of `alembic/operations/ops.py`, `ModifyTableOps.reverse`,
+`UpgradeOps.reverse_into`), for every op tree (arbitrary nesting of `ModifyTableOps`,
+arbitrary field values).
+-/
 namespace C09
 open Model.Reverse Spec.Reverse
 
-theorem placeholder : True := trivial
+/-! ## helper lemmas -/
+
+theorem tagsL_append (a b : List Op) : tagsL (a ++ b) = tagsL a ++ tagsL b := by
+  induction a with
+  | nil => simp [tagsL]
+  | cons x xs ih => simp [tagsL, ih, List.append_assoc]
+
+def inv (p : Kind × Bool) : Kind := inverseKind p.1 p.2
+
+mutual
+theorem tags_reverse (o r : Op) (h : o.reverse = some r) :
+    (tags r).map (·.1) = ((tags o).map inv).reverse := by
+  cases o with
+  | modifyTable t s ops =>
+    simp only [Op.reverse] at h
+    cases hr : reverseEach ops with
+    | none => simp [hr] at h
+    | some rs =>
+      simp [hr] at h
+      subst h
+      simpa [tags] using tagsL_reverseEach ops rs hr
+  | createTableComment t s c e =>
+    cases e <;> simp [Op.reverse] at h <;> subst h <;> simp [tags, inv, inverseKind]
+  | dropColumn t s c kw rev =>
+    cases rev <;> simp [Op.reverse] at h
+    subst h; simp [tags, inv, inverseKind]
+  | dropConstraint n t s ty rev =>
+    cases rev <;> simp [Op.reverse] at h
+    subst h; simp [tags, inv, inverseKind]
+  | createTable t f => simp [Op.reverse] at h; subst h; simp [tags, inv, inverseKind]
+  | dropTable n s f c e rev => simp [Op.reverse] at h; subst h; simp [tags, inv, inverseKind]
+  | addColumn t s c kw => simp [Op.reverse] at h; subst h; simp [tags, inv, inverseKind]
+  | createIndex ix f => simp [Op.reverse, dropIndexOf] at h; subst h; simp [tags, inv, inverseKind]
+  | dropIndex n t s f kw rev => simp [Op.reverse] at h; subst h; simp [tags, inv, inverseKind]
+  | addConstraint c => simp [Op.reverse] at h; subst h; simp [tags, inv, inverseKind]
+  | alterColumn a => simp [Op.reverse] at h; subst h; simp [tags, inv, inverseKind]
+  | dropTableComment t s e => simp [Op.reverse] at h; subst h; simp [tags, inv, inverseKind]
+
+theorem tagsL_reverseEach (ops rs : List Op) (h : reverseEach ops = some rs) :
+    (tagsL rs.reverse).map (·.1) = ((tagsL ops).map inv).reverse := by
+  cases ops with
+  | nil => simp [reverseEach] at h; subst h; simp [tagsL]
+  | cons o rest =>
+    simp only [reverseEach] at h
+    cases ho : o.reverse with
+    | none => simp [ho] at h
+    | some r =>
+      cases hrest : reverseEach rest with
+      | none => simp [ho, hrest] at h
+      | some rs' =>
+        simp [ho, hrest] at h
+        subst h
+        have h1 := tags_reverse o r ho
+        have h2 := tagsL_reverseEach rest rs' hrest
+        simp [tagsL, tagsL_append, List.map_append, List.reverse_append, h1, h2]
+end
+
+/-! ## C09.reverse_order -/
+
+/-- **The downgrade contains the inverse of each upgrade operation, in reverse order**:
+for every op tree (any nesting of `ModifyTableOps`) on which `reverse_into` does not raise,
+`kinds(downgrade_ops) = reversed(inverse kinds(upgrade_ops))`. -/
+theorem reverse_order (ops ds : List Op) (h : reverseInto ops = some ds) :
+    kindsL ds = expectedDown (tagsL ops) := by
+  unfold reverseInto at h
+  cases hr : reverseEach ops with
+  | none => simp [hr] at h
+  | some rs =>
+    simp [hr] at h
+    subst h
+    have hinv : inv = fun p => inverseKind p.1 p.2 := rfl
+    have := tagsL_reverseEach ops rs hr
+    rw [hinv] at this
+    simpa [kindsL, expectedDown] using this
+
+/-- the checker used on the implementation's output agrees with the statement -/
+theorem reverseOrderOk_iff (ups : List (Kind × Bool)) (downs : List Kind) :
+    reverseOrderOk ups downs = true ↔ downs = expectedDown ups := by
+  simp [reverseOrderOk]
+
+/-- non-vacuity: a nested tree that reverses, and a wrong order that the checker rejects -/
+example : reverseInto [.addColumn "t" none ⟨"a", "INTEGER", true, none, none⟩ [],
+    .modifyTable "t" none [.createTableComment "t" none (some "c") none,
+      .dropTableComment "t" none (some "old")]] ≠ none := by
+  simp [reverseInto, reverseEach, Op.reverse]
+
+example : reverseOrderOk [(.addColumn, false), (.createIndex, false)] [.dropColumn, .dropIndex] = false := by
+  decide
+
+/-! ## C09.involutive -/
+
+/-- full-strength statement: reversing a reversible op twice gives an op equal to the original
+on every field `invoke` reads -/
+def involutive_statement : Prop :=
+  ∀ o : Op, reversible o = true →
+    ∃ r rr, o.reverse = some r ∧ r.reverse = some rr ∧ view rr = view o
+
+/-- F11: `AlterColumnOp('t','c', modify_name='d').reverse().reverse()` renames nothing -/
+def renameWitness : Op :=
+  .alterColumn { table := "t", column := "c", schema := none, existingType := none, existingNullable := none,
+                 existingDefault := .unset, existingComment := none, modifyType := none, modifyNullable := none,
+                 modifyDefault := .unset, modifyComment := .unset, modifyName := some "d", kw := [] }
+
+theorem involutive_counterexample : ¬ involutive_statement := by
+  intro h
+  obtain ⟨r, rr, h1, h2, h3⟩ := h renameWitness (by simp [renameWitness, reversible, Alter.complete])
+  simp [renameWitness, Op.reverse, Alter.reverse] at h1
+  subst h1
+  simp [Op.reverse, Alter.reverse] at h2
+  subst h2
+  simp [view, renameWitness] at h3
+
+/-- F13: `CreateIndexOp('ix','t',['a'], if_not_exists=True).reverse().reverse()` has lost the flag;
+so the full statement stays false even without renames -/
+def flagWitness : Op := .createIndex ⟨some "ix", "t", none, ["a"], false, []⟩ (some true)
+
+theorem involutive_flags_counterexample :
+    ¬ (∀ o : Op, reversible o = true → (∀ a, o = .alterColumn a → a.modifyName = none) →
+      ∃ r rr, o.reverse = some r ∧ r.reverse = some rr ∧ view rr = view o) := by
+  intro h
+  obtain ⟨r, rr, h1, h2, h3⟩ := h flagWitness (by simp [flagWitness, reversible]) (by simp [flagWitness])
+  simp [flagWitness, Op.reverse, dropIndexOf] at h1
+  subst h1
+  simp [Op.reverse, dropIndexToIndex] at h2
+  subst h2
+  simp [view, flagWitness] at h3
+
+/-- F14: `CreateUniqueConstraintOp('uq','t',['a'], deferrable=False).reverse().reverse()` has lost
+`deferrable=False` (NOT DEFERRABLE) -/
+def deferrableWitness : Op :=
+  .addConstraint ⟨.unique, some "uq", "t", none, "a", some false, none⟩
+
+theorem involutive_deferrable_counterexample :
+    ¬ (∃ r rr, deferrableWitness.reverse = some r ∧ r.reverse = some rr ∧ view rr = view deferrableWitness) := by
+  intro ⟨r, rr, h1, h2, h3⟩
+  simp [deferrableWitness, Op.reverse, ConsDef.roundTrip] at h1
+  subst h1
+  simp [Op.reverse, ConsDef.roundTrip] at h2
+  subst h2
+  simp [view, deferrableWitness] at h3
+
+theorem roundTrip_idem (c : ConsDef) : c.roundTrip.roundTrip = c.roundTrip := by
+  cases c with
+  | mk kind name table schema body deferrable initially =>
+    cases kind <;> simp [ConsDef.roundTrip]
+    all_goals
+      constructor
+      · cases deferrable with
+        | none => simp
+        | some b => cases b <;> simp
+      · by_cases h : initially = some "" <;> simp [h]
+
+theorem roundTrip_fields (c : ConsDef) :
+    c.roundTrip.name = c.name ∧ c.roundTrip.table = c.table ∧ c.roundTrip.schema = c.schema ∧
+    c.roundTrip.kind = c.kind := by
+  cases c with
+  | mk kind name table schema body deferrable initially =>
+    cases kind <;> simp [ConsDef.roundTrip]
+
+theorem alter_rr (a : Alter) (hc : Alter.complete a = true) (hn : a.modifyName = none) :
+    a.reverse.reverse = a := by
+  rcases a with ⟨t, c, s, eT, eN, eD, eC, mT, mN, mD, mC, mName, kw⟩
+  simp at hn
+  subst hn
+  cases mT <;> cases mN <;> cases mD <;> cases mC <;> cases eC <;> cases eT <;> cases eN <;> cases eD <;>
+    simp_all [Alter.complete, Alter.reverse]
+
+theorem reverseEach_append (a b : List Op) :
+    reverseEach (a ++ b) =
+      match reverseEach a, reverseEach b with
+      | some x, some y => some (x ++ y)
+      | _, _ => none := by
+  induction a with
+  | nil => cases h : reverseEach b <;> simp [reverseEach, h]
+  | cons o r ih =>
+    simp only [List.cons_append, reverseEach, ih]
+    cases o.reverse <;> cases reverseEach r <;> cases reverseEach b <;> simp
+
+theorem reverseEach_reverse (l m : List Op) (h : reverseEach l = some m) :
+    reverseEach l.reverse = some m.reverse := by
+  induction l generalizing m with
+  | nil => simp [reverseEach] at h; subst h; simp [reverseEach]
+  | cons o r ih =>
+    simp only [reverseEach] at h
+    cases ho : o.reverse with
+    | none => simp [ho] at h
+    | some x =>
+      cases hr : reverseEach r with
+      | none => simp [ho, hr] at h
+      | some xs =>
+        simp [ho, hr] at h
+        subst h
+        simp [reverseEach_append, ih xs hr, reverseEach, ho]
+
+theorem filter_unique_idem (kw : List (String × String)) (u : String) :
+    List.filter (fun p => p.1 != "unique") (("unique", u) :: List.filter (fun p => p.1 != "unique") kw) =
+      List.filter (fun p => p.1 != "unique") kw := by
+  simp [List.filter_filter]
+
+theorem dropIndexToIndex_idem (n : Option String) (t : String) (s : Option String)
+    (kw : List (String × String)) (rev : Option IndexDef) :
+    dropIndexToIndex n t s
+      (("unique", if (dropIndexToIndex n t s kw rev).unique then "True" else "False") ::
+        (dropIndexToIndex n t s kw rev).kw) (some (dropIndexToIndex n t s kw rev)) =
+      dropIndexToIndex n t s kw rev := by
+  unfold dropIndexToIndex
+  by_cases h : (List.lookup "unique" kw == some "True") = true
+  · simp [h, List.filter_filter]
+  · simp [h, List.filter_filter]
+
+mutual
+theorem involutive_op (o : Op) (hr : reversible o = true) (hc : clean o = true) :
+    ∃ r rr, o.reverse = some r ∧ r.reverse = some rr ∧ view rr = view o := by
+  cases o with
+  | createTable t f =>
+    simp [clean] at hc; subst hc
+    cases t
+    exact ⟨_, _, rfl, rfl, by simp [view]⟩
+  | dropTable n s f c e rev =>
+    simp [clean] at hc; subst hc
+    exact ⟨_, _, rfl, rfl, by cases rev <;> simp [view, dropTableToTable]⟩
+  | addColumn t s col kw =>
+    simp [clean] at hc; subst hc
+    exact ⟨_, _, rfl, rfl, by simp [view]⟩
+  | dropColumn t s c kw rev =>
+    simp [clean] at hc; subst hc
+    cases rev with
+    | none => simp [reversible] at hr
+    | some col => exact ⟨_, _, rfl, rfl, by simp [view, dropColumnToColumn]⟩
+  | createIndex ix f =>
+    simp [clean] at hc
+    obtain ⟨hf, hk⟩ := hc
+    subst hf
+    refine ⟨_, _, rfl, rfl, ?_⟩
+    cases ix with
+    | mk n t s cols u kw =>
+      have hkw : List.filter (fun p => p.1 != "unique") kw = kw := by
+        apply List.filter_eq_self.mpr
+        intro p hp
+        simpa using hk p.1 p.2 hp
+      cases u <;> simp [view, dropIndexToIndex, hkw]
+  | dropIndex n t s f kw rev =>
+    simp [clean] at hc; subst hc
+    refine ⟨_, _, rfl, rfl, ?_⟩
+    simp only [view, dropIndexOf]
+    have h := dropIndexToIndex_idem n t s kw rev
+    have hn : (dropIndexToIndex n t s kw rev).name = n := rfl
+    have ht : (dropIndexToIndex n t s kw rev).table = t := rfl
+    have hs : (dropIndexToIndex n t s kw rev).schema = s := rfl
+    rw [hn, ht, hs, h]
+  | addConstraint c =>
+    simp [clean, consClean] at hc
+    have hf := roundTrip_fields c
+    refine ⟨_, _, rfl, rfl, ?_⟩
+    simp only [view, hc]
+  | dropConstraint n t s ty rev =>
+    cases rev with
+    | none => simp [reversible] at hr
+    | some r =>
+      simp [reversible] at hr
+      have hf := roundTrip_fields ({ r with name := n, table := t, schema := s } : ConsDef)
+      refine ⟨_, _, rfl, rfl, ?_⟩
+      simp [view, roundTrip_idem, hf, hr]
+  | alterColumn a =>
+    simp [clean] at hc
+    simp [reversible] at hr
+    exact ⟨_, _, rfl, rfl, by simp [view, alter_rr a hr hc]⟩
+  | createTableComment t s c e =>
+    simp [clean] at hc
+    cases c with
+    | none => simp at hc
+    | some cv =>
+      cases e with
+      | none => exact ⟨_, _, rfl, rfl, by simp [view]⟩
+      | some ev => exact ⟨_, _, rfl, rfl, by simp [view]⟩
+  | dropTableComment t s e => exact ⟨_, _, rfl, rfl, by simp [view]⟩
+  | modifyTable t s ops =>
+    simp [reversible] at hr
+    simp [clean] at hc
+    obtain ⟨rs, rrs, h1, h2, h3⟩ := involutive_list ops hr hc
+    have h2' := reverseEach_reverse rs rrs h2
+    refine ⟨.modifyTable t s rs.reverse, .modifyTable t s rrs, ?_, ?_, ?_⟩
+    · simp [Op.reverse, h1]
+    · simp [Op.reverse, h2']
+    · simp [view, h3]
+
+theorem involutive_list (ops : List Op) (hr : reversibleL ops = true) (hc : cleanL ops = true) :
+    ∃ rs rrs, reverseEach ops = some rs ∧ reverseEach rs = some rrs ∧ viewL rrs = viewL ops := by
+  cases ops with
+  | nil => exact ⟨[], [], by simp [reverseEach], by simp [reverseEach], rfl⟩
+  | cons o rest =>
+    simp [reversibleL] at hr
+    simp [cleanL] at hc
+    obtain ⟨r, rr, h1, h2, h3⟩ := involutive_op o hr.1 hc.1
+    obtain ⟨rs, rrs, g1, g2, g3⟩ := involutive_list rest hr.2 hc.2
+    exact ⟨r :: rs, rr :: rrs, by simp [reverseEach, h1, g1], by simp [reverseEach, h2, g2],
+      by simp [viewL, h3, g3]⟩
+end
+
+/-- **Reversing a reversible operation twice gives back the operation** (equal on every field
+`invoke` reads), for every op tree, provided the op carries none of the attributes `reverse()` is
+known to lose (`clean`: no `modify_name` - F11; no `if_exists`/`if_not_exists`/drop-column `kw` -
+F13; `deferrable`/`initially` survive `from_constraint` - F14). -/
+theorem involutive_partial (o : Op) (hr : reversible o = true) (hc : clean o = true) :
+    ∃ r rr, o.reverse = some r ∧ r.reverse = some rr ∧ view rr = view o :=
+  involutive_op o hr hc
+
+/-- non-vacuity: a reversible, clean alter-column with every attribute modified -/
+def fullAlter : Op :=
+  .alterColumn {
+    table := "t", column := "c", schema := some "s", existingType := some "INTEGER",
+    existingNullable := some true, existingDefault := Tri.null, existingComment := none,
+    modifyType := some "VARCHAR(10)", modifyNullable := some false, modifyDefault := Tri.val "0",
+    modifyComment := Tri.val "x", modifyName := none, kw := [] }
+
+example : reversible fullAlter = true ∧ clean fullAlter = true := by
+  simp [fullAlter, reversible, clean, Alter.complete]
+
+/-! ## C09.undo — on the abstract schema semantics -/
+
+section undo
+variable {α β : Type} [DecidableEq α]
+
+theorem upd_same (f : α → Option β) (k : α) (v : Option β) : upd f k v k = v := by
+  simp [upd]
+
+theorem upd_upd (f : α → Option β) (k : α) (v w : Option β) : upd (upd f k v) k w = upd f k w := by
+  funext x
+  by_cases h : x = k <;> simp [upd, h]
+
+theorem upd_eq_self (f : α → Option β) (k : α) (v : Option β) (h : f k = v) : upd f k v = f := by
+  funext x
+  by_cases hx : x = k
+  · subst hx; simp [upd, h]
+  · simp [upd, hx]
+end undo
+
+theorem onTable_eq_some {db : DB} {k : TKey} {f : TState → Option TState} {db' : DB}
+    (h : onTable db k f = some db') :
+    ∃ t t', db k = some t ∧ f t = some t' ∧ db' = upd db k (some t') := by
+  unfold onTable at h
+  cases hk : db k with
+  | none => simp [hk] at h
+  | some t =>
+    simp [hk] at h
+    obtain ⟨t', ht', rfl⟩ := h
+    exact ⟨t, t', rfl, ht', rfl⟩
+
+theorem onTable_some {db : DB} {k : TKey} {f : TState → Option TState} {t t' : TState}
+    (h : db k = some t) (hf : f t = some t') : onTable db k f = some (upd db k (some t')) := by
+  simp [onTable, h, hf]
+
+/-- undoing on a table: if the forward op turned `t` into `t'` and the reverse turns `t'` back
+into `t`, the database is restored -/
+theorem undo_onTable {db : DB} {k : TKey} {t t' : TState} {g : TState → Option TState}
+    (hk : db k = some t) (hg : g t' = some t) :
+    onTable (upd db k (some t')) k g = some db := by
+  rw [onTable_some (upd_same db k (some t')) hg, upd_upd, upd_eq_self db k (some t) hk]
+
+/-- **Each reversed op undoes the op** on the abstract schema semantics: for every leaf op kind,
+every field value and every database state on which the op is applicable and whose stored
+`_reverse` / `existing_*` describe that state, applying `reverse o` after `o` restores the state
+exactly.  Renames are excluded (F11: see `undo_counterexample`). -/
+theorem undo_leaf_partial (o : Op) (db db' : DB)
+    (hn : ∀ a, o = .alterColumn a → a.modifyName = none)
+    (happ : apply o db = some db') (hacc : accurate o db) :
+    ∃ r, o.reverse = some r ∧ apply r db' = some db := by
+  cases o with
+  | modifyTable t s ops => simp [apply] at happ
+  | createTable t f =>
+    refine ⟨_, rfl, ?_⟩
+    simp only [apply] at happ
+    split at happ
+    · simp at happ
+    · rename_i hk
+      simp at happ hk
+      subst happ
+      simp [apply, upd_same, upd_upd, upd_eq_self db _ none hk]
+  | dropTable n s f c e rev =>
+    refine ⟨_, rfl, ?_⟩
+    obtain ⟨t, hk, ht⟩ := hacc
+    simp [apply, hk] at happ
+    subst happ
+    simp only [apply, upd_same]
+    simp [upd_upd]
+    apply upd_eq_self
+    rw [hk, ht]
+    rfl
+  | addColumn t s col kw =>
+    refine ⟨_, rfl, ?_⟩
+    obtain ⟨T, T', hk, hf, rfl⟩ := onTable_eq_some happ
+    split at hf
+    · simp at hf
+    · rename_i hc
+      simp at hf hc
+      subst hf
+      apply undo_onTable hk
+      simp [upd_same, upd_upd, upd_eq_self T.cols _ none hc]
+  | dropColumn t s c kw rev =>
+    obtain ⟨T, col, hk, hrev, hname, hcol⟩ := hacc
+    subst hrev
+    refine ⟨_, rfl, ?_⟩
+    obtain ⟨T0, T', hk0, hf, rfl⟩ := onTable_eq_some happ
+    rw [hk] at hk0; cases hk0
+    simp [hcol] at hf
+    subst hf
+    apply undo_onTable hk
+    subst hname
+    simp [upd_same, upd_upd, upd_eq_self T.cols _ _ hcol]
+  | createIndex ix f =>
+    refine ⟨_, rfl, ?_⟩
+    obtain ⟨T, T', hk, hf, rfl⟩ := onTable_eq_some happ
+    split at hf
+    · simp at hf
+    · rename_i hc
+      simp at hf hc
+      subst hf
+      simp only [dropIndexOf, apply]
+      apply undo_onTable hk
+      simp [upd_same, upd_upd, upd_eq_self T.idxs _ none hc]
+  | dropIndex n t s f kw rev =>
+    obtain ⟨T, hk, hix⟩ := hacc
+    refine ⟨_, rfl, ?_⟩
+    obtain ⟨T0, T', hk0, hf, rfl⟩ := onTable_eq_some happ
+    rw [hk] at hk0; cases hk0
+    simp [hix] at hf
+    subst hf
+    have hn' : (dropIndexToIndex n t s kw rev).name = n := rfl
+    have ht' : (dropIndexToIndex n t s kw rev).table = t := rfl
+    have hs' : (dropIndexToIndex n t s kw rev).schema = s := rfl
+    simp only [apply, hn', ht', hs']
+    apply undo_onTable hk
+    simp [upd_same, upd_upd, upd_eq_self T.idxs _ _ hix]
+  | addConstraint c =>
+    refine ⟨_, rfl, ?_⟩
+    obtain ⟨T, T', hk, hf, rfl⟩ := onTable_eq_some happ
+    split at hf
+    · simp at hf
+    · rename_i hc
+      simp at hf hc
+      subst hf
+      have hfld := roundTrip_fields c
+      simp only [apply, hfld.1, hfld.2.1, hfld.2.2.1]
+      apply undo_onTable hk
+      simp [upd_same, upd_upd, upd_eq_self T.cons _ none hc]
+  | dropConstraint n t s ty rev =>
+    obtain ⟨T, r, hk, hrev, hc⟩ := hacc
+    subst hrev
+    refine ⟨_, rfl, ?_⟩
+    obtain ⟨T0, T', hk0, hf, rfl⟩ := onTable_eq_some happ
+    rw [hk] at hk0; cases hk0
+    simp [hc] at hf
+    subst hf
+    have hfld := roundTrip_fields ({ r with name := n, table := t, schema := s } : ConsDef)
+    simp only [apply, hfld.1, hfld.2.1, hfld.2.2.1]
+    apply undo_onTable hk
+    simp [upd_same, upd_upd, upd_eq_self T.cons _ _ hc]
+  | alterColumn a =>
+    have hname := hn a rfl
+    obtain ⟨T, col, hk, hcol, hT, hN, hD, hC⟩ := hacc
+    refine ⟨_, rfl, ?_⟩
+    obtain ⟨T0, T', hk0, hf, rfl⟩ := onTable_eq_some happ
+    rw [hk] at hk0; cases hk0
+    simp [hcol, hname] at hf
+    subst hf
+    have h1 : a.reverse.table = a.table := rfl
+    have h2 : a.reverse.schema = a.schema := rfl
+    have h3 : a.reverse.column = a.column := rfl
+    have h4 : a.reverse.modifyName = none := rfl
+    simp only [apply, h1, h2, h3]
+    apply undo_onTable hk
+    simp only [upd_same, h4, upd_upd]
+    have hback : alterCol a.reverse (alterCol a col) = col := by
+      rcases a with ⟨t, c, s, eT, eN, eD, eC, mT, mN, mD, mC, mName, kw⟩
+      rcases col with ⟨cn, cty, cnull, cdef, ccom⟩
+      simp at hT hN hD hC
+      cases mT <;> cases mN <;> cases mD <;> cases mC <;> cases cdef <;> cases ccom <;>
+        simp_all [alterCol, Alter.reverse, triToOpt]
+    rw [hback, upd_eq_self T.cols _ _ hcol]
+  | createTableComment t s c e =>
+    obtain ⟨T, hk, hcm⟩ := hacc
+    obtain ⟨T0, T', hk0, hf, rfl⟩ := onTable_eq_some happ
+    rw [hk] at hk0; cases hk0
+    simp at hf
+    subst hf
+    cases e with
+    | none =>
+      refine ⟨_, rfl, ?_⟩
+      simp only [apply]
+      apply undo_onTable hk
+      cases T; simp_all
+    | some ev =>
+      refine ⟨_, rfl, ?_⟩
+      simp only [apply]
+      apply undo_onTable hk
+      cases T; simp_all
+  | dropTableComment t s e =>
+    obtain ⟨T, hk, hcm⟩ := hacc
+    obtain ⟨T0, T', hk0, hf, rfl⟩ := onTable_eq_some happ
+    rw [hk] at hk0; cases hk0
+    simp at hf
+    subst hf
+    refine ⟨_, rfl, ?_⟩
+    simp only [apply]
+    apply undo_onTable hk
+    cases T; simp_all
+
+/-- F11 also breaks the undo: the reverse of a rename does not rename back, so it is not even
+applicable to the renamed table -/
+def renameDb : DB := fun k =>
+  if k = (none, "t") then
+    some { cols := fun n => if n = "c" then some ⟨"c", "INTEGER", true, none, none⟩ else none,
+           idxs := fun _ => none, cons := fun _ => none, comment := none, extra := "" }
+  else none
+
+theorem undo_counterexample :
+    ¬ (∀ (o : Op) (db db' : DB), apply o db = some db' → accurate o db →
+        ∃ r, o.reverse = some r ∧ apply r db' = some db) := by
+  intro h
+  have happ : ∃ db', apply renameWitness renameDb = some db' := by
+    simp [renameWitness, apply, onTable, renameDb]
+  obtain ⟨db', hdb'⟩ := happ
+  have hacc : accurate renameWitness renameDb := by
+    refine ⟨_, ⟨"c", "INTEGER", true, none, none⟩, by simp [renameWitness, renameDb]; rfl, by simp [renameWitness], ?_⟩
+    simp [renameWitness]
+  obtain ⟨r, hr, ha⟩ := h renameWitness renameDb db' hdb' hacc
+  simp [renameWitness, Op.reverse, Alter.reverse] at hr
+  subst hr
+  simp [renameWitness, apply, onTable, renameDb] at hdb'
+  subst hdb'
+  simp [apply, onTable, upd] at ha
+
+/-! ### whole upgrade lists (flattened: `ModifyTableOps` only groups ops) -/
+
+def applyAll : List Op → DB → Option DB
+  | [], db => some db
+  | o :: r, db => (apply o db).bind (applyAll r)
+
+/-- every op is accurate for the state it is executed on -/
+def accurateAll : List Op → DB → Prop
+  | [], _ => True
+  | o :: r, db => accurate o db ∧ ∀ db', apply o db = some db' → accurateAll r db'
+
+theorem applyAll_append (a b : List Op) (db : DB) :
+    applyAll (a ++ b) db = (applyAll a db).bind (applyAll b) := by
+  induction a generalizing db with
+  | nil => simp [applyAll]
+  | cons o r ih =>
+    simp only [List.cons_append, applyAll]
+    cases apply o db <;> simp [ih]
+
+/-- **The downgrade undoes the upgrade** on the abstract semantics: for every list of leaf ops
+(no renames) that executes from `db` to `db'` with accurate stored reverses, `reverse_into`
+succeeds and executing its result from `db'` gives back exactly `db`. -/
+theorem undo_all_partial (ops : List Op) (db db' : DB)
+    (hn : ∀ o ∈ ops, ∀ a, o = .alterColumn a → a.modifyName = none)
+    (happ : applyAll ops db = some db') (hacc : accurateAll ops db) :
+    ∃ ds, reverseInto ops = some ds ∧ applyAll ds db' = some db := by
+  induction ops generalizing db with
+  | nil =>
+    simp [applyAll] at happ
+    subst happ
+    exact ⟨[], by simp [reverseInto, reverseEach], by simp [applyAll]⟩
+  | cons o rest ih =>
+    simp only [applyAll] at happ
+    cases h1 : apply o db with
+    | none => simp [h1] at happ
+    | some db1 =>
+      simp [h1] at happ
+      obtain ⟨r, hr, hback⟩ := undo_leaf_partial o db db1 (hn o (by simp)) h1 hacc.1
+      obtain ⟨ds, hds, hback2⟩ := ih db1 (fun o' ho' => hn o' (by simp [ho'])) happ (hacc.2 db1 h1)
+      unfold reverseInto at hds ⊢
+      cases hre : reverseEach rest with
+      | none => simp [hre] at hds
+      | some rs =>
+        simp [hre] at hds
+        subst hds
+        refine ⟨rs.reverse ++ [r], by simp [reverseEach, hr, hre], ?_⟩
+        rw [applyAll_append, hback2]
+        simp [applyAll, hback]
 
 end C09
